@@ -36,7 +36,11 @@ DEFS = "MCSlots == {" + ", ".join('"%s"' % s for s in ALL) + "}"
 
 def _instance(rng, layout):
     while True:
-        inst = ic.random_instance(rng, H=7, W=7, interior=3, layouts=(layout.lower(),), kshapes=((1, 1), (3, 3), (1, 3), (3, 1)))
+        inst = ic.random_instance(rng, H=7, W=7, interior=3, layouts=(layout.lower().replace("o", "f"),), kshapes=((1, 1), (3, 3), (1, 3), (3, 1)))
+        for ch, o in zip(layout, inst["objs"]):
+            if ch == "o":  # a function list that supplies its own operated mapping matrix
+                o["override"] = True
+                o["me"] = 0
         if layout == "F":  # a single REGULARISED function list and no mapper: still the in-place F += H path
             inst["objs"][0]["reg"] = True
             inst["objs"][0]["me"] = 0
@@ -201,7 +205,7 @@ def run(ctx):
     quick = ctx.quick
     rng = np.random.default_rng(ctx.seed)
     ctx.bounds = {"slots": ALL, "runs": 3, "reads_per_run": 3 if quick else 5, "simulated_behaviours": 120 if quick else 8000,
-                  "layouts": ["m", "F (one regularised function list)", "mf", "fm", "mm"], "formalisms": ["mapping", "w_tilde"]}
+                  "layouts": ["m", "F (one regularised function list)", "mf", "fm", "mm", "om / mo / omf (o = function list with its own operated matrix)"], "formalisms": ["mapping", "w_tilde"]}
     reads = ctx.bounds["reads_per_run"]
     for single in (True, False):
         ctx.tlc("Preloads", _cfg("mc", True, single, 3, reads), defs=DEFS, tag=f"MC_Preloads_{'single' if single else 'multi'}", timeout=900)
@@ -223,9 +227,24 @@ def run(ctx):
             beh = states[-1][1]["hist"]
             ctx.states += len(beh)
             ctx.transitions += len(beh) - 1
-            layout = ["m", "F"][len(jobs) % 2] if single else ["mf", "fm", "mm"][len(jobs) % 3]
+            layout = ["m", "F"][len(jobs) % 2] if single else ["mf", "fm", "mm", "om", "mo", "omf"][len(jobs) % 6]
             inst = _instance(rng, layout)
             jobs.append((beh, inst, ["mapping", "w_tilde"][len(jobs) % 2], bool((len(jobs) // 2) % 2)))
+    # systematic family (behaviours of the same machine, chosen rather than drawn): every single slot and the full set x every
+    # layout x both formalisms, two successive inversions reading every quantity (forward, then backward)
+    sys_layouts = ["m", "F", "mf", "fm", "mm", "om", "mo", "omf"]
+    slotsets = [[s_] for s_ in ALL] + [list(ALL)]
+    nsys = 0
+    for li, layout in enumerate(sys_layouts):
+        for si, ss in enumerate(slotsets):
+            if quick and (li + si) % 2:
+                continue
+            for formalism in ("mapping", "w_tilde"):
+                beh = [{"a": "Preloads", "filled": ss}, {"a": "NewInversion"}] + [{"a": "Read", "q": q} for q in QS] \
+                      + [{"a": "NewInversion"}] + [{"a": "Read", "q": q} for q in reversed(QS)]
+                jobs.append((beh, _instance(rng, layout), formalism, bool(nsys % 2)))
+                nsys += 1
+    ctx.bounds["systematic_behaviours"] = nsys
     groups = [jobs[k : k + 4] for k in range(0, len(jobs), 4)]
     episodes = []
     for part in core.pmap(_exec_many, groups):
